@@ -1111,6 +1111,7 @@ class SortValues(BaseSetIndexSortValues):
             )
         if (
             isinstance(parent, Repartition)
+            and "new_partitions" in parent._parameters
             and parent.operand("new_partitions") is not None
         ):
             return type(self)(
